@@ -59,7 +59,8 @@ def confirm(src, prop, name):
     for f in ("patch.diff", "demo.rs", "notes.md", "env", "features"):
         if os.path.exists(os.path.join(src, f)):
             shutil.copy(os.path.join(src, f), d)
-    meta = dict(property=prop, name=name, confirmed=res, confirmed_at=time.strftime("%Y-%m-%dT%H:%M:%S"),
+    lines = [l.strip(" #*-") for l in open(os.path.join(src, "notes.md")).read().splitlines() if l.strip(" #*-")] if os.path.exists(os.path.join(src, "notes.md")) else []
+    meta = dict(property=prop, name=name, summary=(lines[0][:300] if lines else ""), needs_to_manifest=(lines[1][:300] if len(lines) > 1 else ""), confirmed=res, confirmed_at=time.strftime("%Y-%m-%dT%H:%M:%S"),
                 needs=open(os.path.join(src, "notes.md")).read()[:1500] if os.path.exists(os.path.join(src, "notes.md")) else "",
                 ran=["cargo test --offline --test seed_demo (without change: pass; with change: fail)", "cargo test --offline --workspace --no-fail-fast (with change: pass)"],
                 checks={})
